@@ -832,6 +832,157 @@ func runSiblings(c *fw.Ctx) {
 	}
 }
 
+// runPerFieldSchemas: the builder registered for a type is consulted for EVERY field of that type with THAT field's
+// schema: one record with three time.Time fields carried as timestamp-millis, timestamp-micros and plain long
+// (nanoseconds), and their nullable forms, must write and read each field in its own unit.
+func runPerFieldSchemas(c *fw.Ctx) {
+	type TT3 struct {
+		A  time.Time  `json:"a"`
+		B  time.Time  `json:"b"`
+		C  time.Time  `json:"c"`
+		D  time.Time  `json:"d"`
+		PA *time.Time `json:"pa"`
+		PB *time.Time `json:"pb"`
+	}
+	units := []struct {
+		name, schema string
+		toInt        func(time.Time) int64
+	}{
+		{"timestamp-millis", `{"type":"long","logicalType":"timestamp-millis"}`, func(t time.Time) int64 { return t.UnixMilli() }},
+		{"timestamp-micros", `{"type":"long","logicalType":"timestamp-micros"}`, func(t time.Time) int64 { return t.UnixMicro() }},
+		{"long", `"long"`, func(t time.Time) int64 { return t.UnixNano() }},
+		{"date", `{"type":"int","logicalType":"date"}`, func(t time.Time) int64 { return t.Unix() / 86400 }},
+	}
+	tm := time.Date(2021, 3, 4, 0, 0, 0, 0, time.UTC) // a whole day, so that every unit carries it exactly
+	n := 0
+	for _, perm := range [][]int{{0, 1, 2, 3}, {1, 0, 3, 2}, {2, 3, 0, 1}, {3, 2, 1, 0}, {0, 0, 1, 1}, {2, 1, 1, 2}} {
+		n++
+		c.Eval(1)
+		names := []string{"a", "b", "c", "d"}
+		doc := `{"type":"record","name":"tt3","fields":[`
+		for i, u := range perm {
+			doc += fmt.Sprintf(`{"name":"%s","type":%s},`, names[i], units[u].schema)
+		}
+		doc += fmt.Sprintf(`{"name":"pa","type":["null",%s]},{"name":"pb","type":[%s,"null"]}]}`, units[perm[1]].schema, units[perm[0]].schema)
+		desc := "time.Time fields of one record under per-field schemas " + fmt.Sprint(perm) + " (0 millis, 1 micros, 2 nanos, 3 date)"
+		locus := "time.Time|per-field-schema"
+		c.Nontrivial(desc)
+		c.Begin(locus, desc)
+		c.Guard(locus, desc, doc, func() {
+			s, err := avro.SchemaFromString(doc)
+			if err != nil {
+				c.HarnessError(err.Error())
+				return
+			}
+			codec, err := s.Codec(TT3{})
+			if err != nil {
+				c.Violation("codec-refused|"+locus, fmt.Sprintf("%v — %s", err, desc), doc)
+				return
+			}
+			v := TT3{A: tm, B: tm, C: tm, D: tm, PA: &tm, PB: &tm}
+			w := avro.NewWriteBuf(nil)
+			codec.Write(w, unsafe.Pointer(&v))
+			var want []byte
+			for _, u := range perm {
+				want = ref.AppendLong(want, units[u].toInt(tm))
+			}
+			want = ref.AppendLong(ref.AppendLong(want, 1), units[perm[1]].toInt(tm))
+			want = ref.AppendLong(ref.AppendLong(want, 0), units[perm[0]].toInt(tm))
+			if string(w.Bytes()) != string(want) {
+				c.Violation("registered-codec-not-per-field|"+locus, fmt.Sprintf("written %x, each field in its own unit is %x — %s", w.Bytes(), want, desc), doc)
+				return
+			}
+			var back TT3
+			if err := codec.Read(avro.NewReadBuf(want), unsafe.Pointer(&back)); err != nil || !back.A.Equal(tm) || !back.B.Equal(tm) || !back.C.Equal(tm) || !back.D.Equal(tm) || back.PA == nil || !back.PA.Equal(tm) || back.PB == nil || !back.PB.Equal(tm) {
+				c.Violation("registered-codec-not-per-field|"+locus, fmt.Sprintf("read back %+v err=%v, every field should be %s — %s", back, err, tm, desc), doc)
+			}
+		})
+	}
+	c.Count("states", int64(n))
+	c.Count("transitions", int64(n))
+}
+
+// RootReg is a struct type with a REGISTERED schema (no custom codec) that is used as the root type of an encoder:
+// the registration governs the type "everywhere", the top of NewEncoderFor[T] included.
+type RootReg struct {
+	A int64  `json:"a"`
+	B string `json:"b"`
+}
+
+func runRootRegistered(c *fw.Ctx) {
+	const doc = `{"type":"record","name":"custom_root","namespace":"reg.istered","fields":[{"name":"b","type":"string"},{"name":"a","type":{"type":"long","logicalType":"app-thing"}}]}`
+	s, err := avro.SchemaFromString(doc)
+	if err != nil {
+		c.HarnessError(err.Error())
+		return
+	}
+	avro.RegisterSchema(reflect.TypeOf(RootReg{}), s)
+	want, _ := ref.ParseSchema([]byte(doc))
+	locus := "registered-struct|root-of-encoder"
+	for _, comp := range []string{"null", "deflate", "snappy"} {
+		c.Eval(1)
+		desc := "NewEncoderFor[RootReg] (" + comp + ") where RootReg has a registered record schema with its own name and field order"
+		c.Nontrivial(desc)
+		c.Begin(locus, desc)
+		c.Guard(locus, desc, desc, func() {
+			var buf bytes.Buffer
+			e, err := avro.NewEncoderFor[RootReg](&buf, avro.Compression(comp), 0)
+			if err != nil {
+				c.Violation("encoder-error|"+locus, fmt.Sprintf("%v — %s", err, desc), desc)
+				return
+			}
+			rows := []RootReg{{A: 7, B: "seven"}, {A: -1, B: ""}}
+			for i := range rows {
+				if err := e.Encode(&rows[i]); err != nil {
+					c.Violation("encoder-error|"+locus, fmt.Sprintf("%v — %s", err, desc), desc)
+					return
+				}
+			}
+			e.Flush()
+			p, err := ref.ParseFile(buf.Bytes())
+			if err != nil {
+				c.Violation("not-a-container|"+locus, fmt.Sprintf("%v — %s", err, desc), desc)
+				return
+			}
+			hs, err := ref.ParseSchema(p.Meta["avro.schema"])
+			if err != nil || !hs.Equal(want) {
+				c.Violation("superseded-registration-still-in-force|registered-struct|root-of-encoder", fmt.Sprintf("the file header carries %s, the schema registered for the type is %s — %s", p.Meta["avro.schema"], doc, desc), desc)
+				return
+			}
+			i := 0
+			for _, b := range p.Blocks {
+				ds, derr := ref.DecodeAll(want, b.Payload, b.Count)
+				if derr != nil {
+					c.Violation("payload-not-avro|"+locus, fmt.Sprintf("%v — %s", derr, desc), desc)
+					return
+				}
+				for _, d := range ds {
+					if exp := ref.DRecord(ref.DString(rows[i].B), ref.DLong(rows[i].A)); !d.Equal(exp) {
+						c.Violation("wrong-datum|"+locus, fmt.Sprintf("row %d is %s under the registered schema, written %s — %s", i, d, exp, desc), desc)
+						return
+					}
+					i++
+				}
+			}
+			if i != len(rows) {
+				c.Violation("wrong-record-count|"+locus, fmt.Sprintf("%d rows, %d written — %s", i, len(rows), desc), desc)
+			}
+		})
+	}
+	// and the two schema-generation entry points agree with the registration
+	c.Eval(1)
+	got, err := avro.SchemaForType(RootReg{})
+	if err != nil || !aschema.FromAvro(got).Equal(want) {
+		c.Violation("wrong-schema|registered-struct|root", fmt.Sprintf("SchemaForType(RootReg{}) = %s err=%v, registered %s", aschema.FromAvro(got).Print(nil), err, doc), doc)
+	}
+	got, err = avro.SchemaForType(struct {
+		R RootReg `json:"r"`
+	}{})
+	if err != nil || len(got.Object.Fields) != 1 || !aschema.FromAvro(got.Object.Fields[0].Type).Equal(want) {
+		c.Violation("wrong-schema|registered-struct|field", fmt.Sprintf("SchemaForType(struct{R RootReg}) field schema is not the registered one (err=%v)", err), doc)
+	}
+}
+
 // runLibraryHistories: sequences over {L = avrotime.RegisterCodecs(), A = the application registers its own
 // builder and schema for time.Time}; the most recent one must govern time.Time at every position.
 func runLibraryHistories(c *fw.Ctx, depth int) {
@@ -1089,7 +1240,7 @@ func init() {
 			if tier == "thorough" {
 				d = 4
 			}
-			return fmt.Sprintf("explicit-state exploration of registration histories on the real global registries, model = (current builder ∈ {none,f1,f2}, current schema ∈ {none,s1,s2,s3=[string,null]}) with 'last registration wins', for custom types of four kinds (named int64, struct, named slice, named string) with instrumented codecs (invocation counters; builder f2 marks its wire data so the codec actually used is observable): (a) from the unregistered state every history of length<=3 over {Register(f1),Register(f2)} and over {RegisterSchema(s1),RegisterSchema(s2)}, each on a type nobody registered before (generic named types give 40 fresh types per kind); (b) every history of length<=%d over all four operations with the state carried over; after every operation the type is used at 11 positions {field,*T,**T,[]T,[]*T,map[string]T,map[string]*T,omitempty,struct{X T},[]struct{X T},map[string][]T}: SchemaForType must show the model's schema there, Schema.Codec must consult exactly the model's builder, every occurrence must go through that builder's codec (counters), bytes must decode under the generated schema with the reference decoder, values must round-trip at codec and file level; controls: never-registered look-alike types and the library's own time.Time / null.* registrations at the same positions; and all of them together as siblings of one record (two pointer fields × every pair of leaf values, map values, slice of pointers, plain field); plus every history (one level deeper) over {time.RegisterCodecs(), null.RegisterCodecs(), the application registering its own builder and schema for time.Time, the same for null.Int}, after each step of which the most recent registration FOR THAT TYPE must govern time.Time and null.Int (a registration call for other types must not touch it); distinct_nontrivial counts distinct (type, history, position) uses", d)
+			return fmt.Sprintf("explicit-state exploration of registration histories on the real global registries, model = (current builder ∈ {none,f1,f2}, current schema ∈ {none,s1,s2,s3=[string,null]}) with 'last registration wins', for custom types of four kinds (named int64, struct, named slice, named string) with instrumented codecs (invocation counters; builder f2 marks its wire data so the codec actually used is observable): (a) from the unregistered state every history of length<=3 over {Register(f1),Register(f2)} and over {RegisterSchema(s1),RegisterSchema(s2)}, each on a type nobody registered before (generic named types give 40 fresh types per kind); (b) every history of length<=%d over all four operations with the state carried over; after every operation the type is used at 11 positions {field,*T,**T,[]T,[]*T,map[string]T,map[string]*T,omitempty,struct{X T},[]struct{X T},map[string][]T}: SchemaForType must show the model's schema there, Schema.Codec must consult exactly the model's builder, every occurrence must go through that builder's codec (counters), bytes must decode under the generated schema with the reference decoder, values must round-trip at codec and file level; controls: never-registered look-alike types and the library's own time.Time / null.* registrations at the same positions; and all of them together as siblings of one record, and time.Time fields of one record under different per-field schemas (millis / micros / nanoseconds / date in six arrangements, plus both nullable forms), and a struct type with a registered record schema used as the ROOT type of NewEncoderFor[T] (header schema and row layout must be the registered ones) (two pointer fields × every pair of leaf values, map values, slice of pointers, plain field); plus every history (one level deeper) over {time.RegisterCodecs(), null.RegisterCodecs(), the application registering its own builder and schema for time.Time, the same for null.Int}, after each step of which the most recent registration FOR THAT TYPE must govern time.Time and null.Int (a registration call for other types must not touch it); distinct_nontrivial counts distinct (type, history, position) uses", d)
 		},
 		Assumptions: []string{
 			"a registration cannot be undone, so model state is carried across histories within a worker; states with an unregistered component are only reachable on fresh types",
@@ -1110,6 +1261,8 @@ func init() {
 			if idx == 4 {
 				runControls(c)
 				runSiblings(c)
+				runPerFieldSchemas(c)
+				runRootRegistered(c)
 				c.Count("states", 1)
 				c.Count("transitions", 1)
 				return
